@@ -138,6 +138,37 @@ RSTRIP_EOL = fun("bytes_rstrip_crlf", S, S)            # b.rstrip(b"\r\n")
 B64D = fun("base64_b64decode", S, S)
 REPLACE_ALL = fun("str_replace_all", S, S, S, S)       # x.replace(old, new)
 LOWER = z3.Function("str_lower", S, S)                 # same symbol as contracts/C07.py
+LSTRIP = z3.Function("str_lstrip", S, S)               # str.lstrip() (uninterpreted)
+# (round 7) re.split(pattern, s): ASSUMED total, at least one piece; the pieces are functions of (pattern, s)
+RSPL_N = fun("re_split_n", S, S, I)
+RSPL_AT = fun("re_split_at", S, S, I, S)
+# (round 7) names for the result of the VERIFIED, deterministic msg._parse_single_recipient(raw) at call sites (conservative extension:
+# the body is a function of `raw`); what they are is given by the ensures clauses of its contract, nothing else is assumed about them
+PSR_NONE = fun("psr_is_none", S, B)
+PSR_NAME = fun("psr_name", S, S)
+PSR_ADDR = fun("psr_address", S, S)
+CNT_PSR = fun("cnt_recipients", S, S, I, I)   # number of pieces of re.split(P, s)[:i] that give a recipient with a name or an address
+
+
+# (round 7) the specified result of msg._parse_multi_recipients(s) for a str s, as an abstract sequence (call-site view of its verified
+# contract: the recursive calls of the list form), and the prefix sums of the result lengths over the items of a list argument
+PMR_N = fun("pmr_n", S, I)
+PMR_AT = z3.Function("pmr_at", S, I, ext_sort("EmailAddress"))
+
+
+OLE_STREAM = z3.Function("ole_stream", ext_sort("OleFile"), S, S, ext_sort("OleStream"))
+OLE_DATA = z3.Function("ole_stream_bytes", ext_sort("OleStream"), S)
+DEC_IGN = fun("bytes_decode_ignore", S, S, S)          # the symbol m_decode uses for errors="ignore"
+RSTRIP_CHARS = fun("str_rstrip_chars", S, S, S)        # the symbol str.rstrip(<constant chars>) uses
+
+
+def psr_keep(P, s, k):
+    part = RSPL_AT(P, s, k)
+    return z3.And(z3.Not(PSR_NONE(part)), z3.Or(z3.Length(PSR_NAME(part)) > 0, z3.Length(PSR_ADDR(part)) > 0))
+
+
+def cnt_psr_def(P, s, j):
+    return CNT_PSR(P, s, j) == z3.If(j <= 0, 0, CNT_PSR(P, s, j - 1) + z3.If(psr_keep(P, s, j - 1), 1, 0))
 
 # re: match list of a compiled pattern over data
 PatS = ext_sort("RePattern")
@@ -830,6 +861,15 @@ class MailExecutor(UnitsExecutor):
             vk = X.ekind_of_value(self.freeze(st.fork(), args[0]) if isinstance(args[0], VRef) else args[0])
             old = self._probe_kinds.get(obj.ref)
             self._probe_kinds[obj.ref] = vk if old in (None, vk) else "unk"
+        if name == "extend" and self._probing and args:
+            # (round 7) `xs.extend(<symbolic sequence>)`: the element kind of the sequence is the kind of what the loop adds
+            src = args[0]
+            if isinstance(src, VRef) and st.obj(src.ref).kind == "alist":
+                src = st.obj(src.ref).data
+            if isinstance(src, VSeq):
+                vk = src.ekind
+                old = self._probe_kinds.get(obj.ref)
+                self._probe_kinds[obj.ref] = vk if old in (None, vk) else "unk"
         return super().alist_method(st, obj, name, args, kwargs, node)
 
     def probe_kinds(self, s, st, it):
@@ -1184,7 +1224,15 @@ class MailExecutor(UnitsExecutor):
 
     def summarise_call(self, st, f, args, kwargs, node):
         from pyvc import loader as _l
-        if f.a not in self.SUMMARISE or self.reg.get(f"{f.a}::{f.b}") is not None or "." in f.b or not f.b.startswith("_") or kwargs:
+        reg_c = self.reg.get(f"{f.a}::{f.b}")
+        # (round 7) a contract may be verified under a precondition its call sites do not establish (`_parse_multi_recipients` is
+        # verified for a str, the message properties may be lists): such a contract sets `summary_at_call_sites` and its callers keep
+        # the summarised view -- a deterministic function of the arguments, which any contract of a deterministic body implies
+        if reg_c is not None and not getattr(reg_c, "summary_at_call_sites", False):
+            return None
+        if reg_c is not None and self.contract is reg_c:
+            return None                 # the function's own recursive calls are not summarised
+        if f.a not in self.SUMMARISE or "." in f.b or not f.b.startswith("_") or kwargs:
             return None
         fnode = _l.module(f.a, self.module.repo).functions.get(f.b)
         if fnode is None or fnode.returns is None:
@@ -1782,6 +1830,25 @@ def install(reg):
             return [(st, VDyn(c, True))]
         return [(st, VDyn(z3.SubString(c, pos, z3.Length(c) - pos), True))]
 
+    # ---- (round 7) olefile: a stream of an open OLE file --------------------------------------
+    # ASSUMED: ole.openstream([storage, name]) may raise anything (missing stream, broken sector chain), else it gives a stream object
+    # that is a function of (file, storage, name); stream.read() may raise, else it gives the stream's bytes (a function of the stream)
+    def m_ole_openstream(ex, st, obj, args, kwargs, node):
+        items = ex.concrete_items(st, args[0]) if len(args) == 1 and not kwargs else None
+        if items is None or len(items) != 2 or not all(isinstance(x, VStr) for x in items):
+            raise Unsupported(f"{ex.loc(node)} openstream of other than [storage, stream name]")
+        ex.exc_any(st.fork(), f"{ex.loc(node)} olefile openstream")
+        return [(st, VExt("OleStream", OLE_STREAM(obj.t, items[0].t, items[1].t)))]
+
+    def m_olestream_read(ex, st, obj, args, kwargs, node):
+        if args or kwargs:
+            raise Unsupported(f"{ex.loc(node)} OleStream.read(n)")
+        ex.exc_any(st.fork(), f"{ex.loc(node)} olefile stream read")
+        return [(st, VDyn(OLE_DATA(obj.t), True))]
+
+    reg.method_models[("OleFile", "openstream")] = m_ole_openstream
+    reg.method_models[("OleStream", "read")] = m_olestream_read
+
     reg.ext_models["io.BytesIO"] = new_bytesio
     reg.ext_models[("new", "io.BytesIO")] = new_bytesio
     reg.ext_models[("new", "BytesIO")] = new_bytesio
@@ -1866,6 +1933,10 @@ def install(reg):
 
     def m_re_compile(ex, st, args, kwargs, node):
         pat = args[0].const() if args and isinstance(args[0], VStr) else None
+        if pat is not None and len(args) == 2 and not kwargs and isinstance(node, ast.Call) and len(node.args) == 2 \
+                and ast.unparse(node.args[1]) in ("re.IGNORECASE", "re.I"):
+            # (round 7) re.compile(p, re.IGNORECASE) IS re.compile("(?i)" + p): the flag is written into the pattern constant
+            return [(st, VExt("RePattern", RePat(z3.StringVal("(?i)" + pat))))]
         if pat is None or len(args) > 1:
             raise Unsupported(f"{ex.loc(node)} re.compile of a non-constant str pattern / with flags")
         return [(st, VExt("RePattern", RePat(z3.StringVal(pat))))]
@@ -1890,6 +1961,21 @@ def install(reg):
         return [(st, VStr(sub_term(pat, args[1], args[2].t)))]
 
     reg.ext_models["re.compile"] = m_re_compile
+
+    # (round 7) str.lower() / str.lstrip() of a symbolic str: uninterpreted FUNCTIONS of the string (the engine's default is a fresh
+    # unconstrained string per call, which is the same over-approximation without determinism): ASSUMED total
+    def m_lower(ex, st, args, kwargs, node):
+        if len(args) != 1 or kwargs or not isinstance(args[0], VStr):
+            raise Unsupported(f"{ex.loc(node)} str.lower with arguments")
+        return [(st, VStr(LOWER(args[0].t)))]
+
+    def m_lstrip(ex, st, args, kwargs, node):
+        if len(args) != 1 or kwargs or not isinstance(args[0], VStr):
+            raise Unsupported(f"{ex.loc(node)} str.lstrip with arguments")
+        return [(st, VStr(LSTRIP(args[0].t)))]
+
+    reg.ext_models.setdefault("str.lower", m_lower)
+    reg.ext_models.setdefault("str.lstrip", m_lstrip)
     reg.ext_models["re.sub"] = m_re_sub
     reg.method_models[("RePattern", "sub")] = m_pat_sub
 
@@ -1931,6 +2017,27 @@ def install(reg):
         return m_re_search(ex, st, [VStr(pat), a[0]], {}, n)
 
     reg.ext_models["re.search"] = m_re_search
+
+    def m_re_split(ex, st, args, kwargs, node):
+        """(round 7) re.split(pattern, s) for a constant pattern: ASSUMED total; a list of RSPL_N >= 1 pieces, functions of (pattern, s).
+        The last split is recorded in the ghost `re_split_arg` (clauses say WHAT was split by WHICH pattern)."""
+        pat = args[0].const() if args and isinstance(args[0], VStr) else None
+        if pat is None or len(args) != 2 or kwargs or not isinstance(args[1], VStr):
+            raise Unsupported(f"{ex.loc(node)} re.split with a non-constant pattern / maxsplit / flags")
+        P, s_ = z3.StringVal(pat), args[1].t
+        st.assume(RSPL_N(P, s_) >= 1)
+        st.ghost["re_split_arg"] = (P, s_)
+        return [(st, VSeq(RSPL_N(P, s_), lambda k: VStr(RSPL_AT(P, s_, k)), "str"))]
+
+    def m_pat_split(ex, st, o, a, k, n):
+        t = o.t
+        pat = t.arg(0).as_string() if z3.is_app(t) and t.decl().name() == "re_compiled" and z3.is_string_value(t.arg(0)) else None
+        if pat is None or len(a) != 1 or k:
+            raise Unsupported(f"{ex.loc(n)} pattern.split on an unknown pattern / with maxsplit")
+        return m_re_split(ex, st, [VStr(pat), a[0]], {}, n)
+
+    reg.ext_models["re.split"] = m_re_split
+    reg.method_models[("RePattern", "split")] = m_pat_split
     reg.method_models[("RePattern", "search")] = m_pat_search
     reg.method_models[("SMatch", "group")] = m_sm_group
     reg.method_models[("SMatch", "start")] = m_sm_start
